@@ -86,6 +86,57 @@ def run(tier):
                             key = 'window' if (lo, hi) not in ((0, None), (0, rows)) else 'equivalence'
                             chk.fail(f'source:{kind}:{key}-differs', case,
                                      f'file differs from the dict source with pre-sliced arrays rows [{lo},{hi})')
+        # one DLISFile written several times, each time from another kind of source holding OTHER values (same names,
+        # shapes and dtypes): every file must equal the one a fresh specification writes from that data as a dict
+        import numpy as np
+        import pickle
+        from harness.impl import call
+        for si in range(12 if tier == 'quick' else 120):
+            rows = R.choice([2, 3, 5])
+            spec = filegen.gen_spec(R, n_lf=1, small=True, rows=rows, vrl=R.choice([8192, 128]), with_index=False)
+            for lf in spec['lfs']:
+                for o in lf['objects']:
+                    if o['kind'] == 'channel':
+                        o['layout'] = 'plain'
+                        o['cast_dtype'] = None
+                        if o.get('dataset_name') and o['dataset_name'].startswith('/'):
+                            o['dataset_name'] = o['dataset_name'].strip('/').replace('/', '_')
+            inline_first = (si % 3 == 0)      # channels created with data; what write() is handed then takes precedence
+            spec['write'].update({'data_kind': 'inline' if inline_first else 'dict', 'input_chunk_size': None,
+                                  'output_chunk_size': 2**20, 'from_idx': 0, 'to_idx': None})
+            spec['object_routes'] = False
+            st0, b = call(filegen.build, spec)
+            if st0 != 'ok':
+                continue
+            spec['write']['data_kind'] = 'dict'
+            names = {}
+            for (li, oi, arr) in b.arrays:
+                names[(li, oi)] = b.handles[li][oi].dataset_name
+            for wn, kind in enumerate([R.choice(['dict'] if inline_first else ['dict', 'struct', 'hdf5']) for _ in range(3)]):
+                cur = pickle.loads(pickle.dumps(spec))
+                datasets = {}
+                for (li, oi), key in names.items():
+                    o = cur['lfs'][li]['objects'][oi]
+                    o['data'] = filegen.gen_data(R, o['dtype'], o['width'], rows, None)
+                    datasets[key] = o['data']
+                ref = filegen.write(cur, tmp, fname='ref2.dlis')      # fresh object, dict source
+                if ref['status'] != 'ok':
+                    chk.count('reference-write-failed')
+                    break
+                src = datasets if kind == 'dict' else filegen.make_source(
+                    kind, datasets, {'perm_seed': R.randrange(1000), 'extra': R.choice([0, 2]), 'tmpdir': tmp, 'h5name': 'seq.h5'})
+                st, err = call(b.df.write, f'{tmp}/seq.dlis', data=src, output_chunk_size=2**20)
+                case = {'spec_index': si, 'spec': filegen.describe(cur), 'write_number': wn + 1, 'source': kind,
+                        'same_DLISFile_object': True, 'channels_created_with_data': inline_first}
+                chk.case('successive-sources', nontrivial_key=('seq', si, wn), sample={'write': wn + 1, 'source': kind, 'status': st})
+                chk.count(f'successive:{kind}:{st}')
+                if st != 'ok':
+                    chk.fail(f'successive:{kind}:rejected', case, f'write #{wn + 1} of the same DLISFile raised {err}')
+                    break
+                if open(f'{tmp}/seq.dlis', 'rb').read() != ref['data']:
+                    chk.fail(f'successive:{kind}:differs', case, f'write #{wn + 1} (source {kind}) differs from a fresh '
+                                                                'specification written from the same data')
+                    break
     finally:
         shutil.rmtree(tmp, ignore_errors=True)
     return finish(chk, bres, THEOREMS,
